@@ -9,17 +9,24 @@ Framing layer of the four decoder copies and of the loops that drive them:
 
 `check`, `parse_fixed_header`, `length` are textually identical in the four files except that c5
 takes `max_packet_size: Option<u32>` (`None` = no limit). What differs is the packet-type
-dispatch at the top of `read`/`read_mut` (`dispatch` below), in particular b5 reaches
-`unreachable!()` for CONNACK / UNSUBACK frames with a non-empty body.
+dispatch at the top of `read`/`read_mut` (`dispatch` below) and what happens to a body reader's
+error (`sealed` below).
 
 The packet *body* readers are not modelled here (C04): `body` is an arbitrary parameter that gets
 the fixed header and exactly the bytes of the frame (`stream.split_to(frame_length)`). One thing
 about them is visible to the framing loops and therefore part of this model: a body reader's error
-can itself be `Error::InsufficientBytes(n)` (`BodyErr.insufficient`). In the v5 copies (c5, b5)
-this happens whenever `length()` is called on a property-length field that is cut off by the end of
-the frame; the v4 readers never call `length()`. `Codec::decode`, `Network::read` and `readv`
-cannot tell this from the framing layer's "wait for more bytes", although the frame has already
-been removed from the buffer (`Step.swallowed`).
+can itself be `Error::InsufficientBytes(n)` (`BodyErr.insufficient`) — the v5 readers answer that
+whenever `length()` is called on a property-length field cut off by the end of the frame.
+  * c5 / b5 (since 5359110): `read`/`read_mut` run the body through `read_frame(..)` and map an
+    `InsufficientBytes` raised inside the complete frame to `MalformedPacket` (`sealed c = true`).
+  * c4 / b4: the body reader's error is propagated unchanged by `?` (`sealed c = false`). The v4
+    readers never call `length()` (only `read_u8/u16/mqtt_bytes/mqtt_string`), so they never answer
+    `InsufficientBytes`; if one did, `Codec::decode`, `Network::read` and `readv` could not tell it
+    from the framing layer's "wait for more bytes" although the frame is already removed from the
+    buffer (`Step.swallowed`). That is why theorems about the v4 copies keep the hypothesis
+    `Honest body`.
+History: before c0aab5e b5 had no arm for CONNACK / UNSUBACK (`unreachable!()`); before 5359110 the
+v5 copies were not sealed; before 86cba48 c5 answered `PayloadRequired` for a bodiless DISCONNECT.
 Loops: `tokio_util::codec::Decoder::decode` driven as `Framed` does (`feed`, client),
 `rumqttd::link::network::Network::{read, read_bytes, readv}` (`netRun`, `linkRun`, broker).
 Import-free (only Model.*): compiled into the native driver.
@@ -49,6 +56,9 @@ def FixedHeader.frameLen (fh : FixedHeader) : Nat := fh.fixedHeaderLen + fh.rema
 
 /-- `byte1 >> 4` -/
 def FixedHeader.typeNibble (fh : FixedHeader) : Nat := fh.byte1.toNat / 16
+
+/-- `byte1 & 0x0F` -/
+def FixedHeader.flags (fh : FixedHeader) : Nat := fh.byte1.toNat % 16
 
 inductive HdrResult where
   | ok (fh : FixedHeader)
@@ -101,24 +111,35 @@ inductive Dispatch where
   | accept
   /-- a body reader is called -/
   | read
-  /-- `_ => unreachable!()` -/
+  /-- `_ => unreachable!()`: b4 still has such an arm after all fourteen packet types (dead);
+      b5 had a live one until c0aab5e. No copy's dispatch reaches it (`dispatch_ne_unreachable`). -/
   | unreachable
 deriving DecidableEq, Repr
 
-/-- per-copy dispatch on `(byte1 >> 4, remaining_len)`. -/
-def dispatch (c : Copy) (ty rl : Nat) : Dispatch :=
+/-- per-copy dispatch on `(byte1 >> 4, byte1 & 0x0F, remaining_len)`. For remaining length 0 the
+    outcome is a function of the first byte alone in every copy: c5 (since 86cba48) hands a bodiless
+    DISCONNECT to `Disconnect::read`, which for an empty body checks nothing but the flags
+    (`flags != 0 → MalformedPacket`, else `Ok(NormalDisconnection)`); the other copies do not look
+    at the flags. -/
+def dispatch (c : Copy) (ty flags rl : Nat) : Dispatch :=
   if ty = 0 ∨ ty ≥ 15 then .reject                     -- packet_type()? : InvalidPacketType
   else if rl = 0 then
     if ty = 12 ∨ ty = 13 then .accept
-    else if ty = 14 then (match c with | .c5 => .reject | _ => .accept)
+    else if ty = 14 then
+      (match c with | .c5 => if flags = 0 then .accept else .reject | _ => .accept)
     else .reject                                       -- PayloadRequired
   else if ty = 12 ∨ ty = 13 then .accept
   else if ty = 14 then
     (match c with | .c4 => .accept | .c5 => .read | .b4 => .reject | .b5 => .read)
-  else
-    match c with
-    | .b5 => if ty = 2 ∨ ty = 11 then .unreachable else .read
-    | _ => .read
+  else .read
+
+/-- does `read`/`read_mut` turn an `InsufficientBytes` raised by a body reader into
+    `MalformedPacket` (`read_frame(..).map_err(..)`, v5 copies) or propagate it (`?`, v4 copies) -/
+def sealed : Copy → Bool
+  | .c4 => false
+  | .c5 => true
+  | .b4 => false
+  | .b5 => true
 
 /-- outcome of one `Packet::read` / `read_mut` call on the buffer `bs` -/
 inductive Step (Pkt : Type) where
@@ -134,8 +155,8 @@ inductive Step (Pkt : Type) where
   | malformed (rest : ByteList)
   /-- `unreachable!()` reached; the frame has already been split off the buffer -/
   | panic (rest : ByteList)
-  /-- `Err(InsufficientBytes(n))` coming out of a *body reader*: the frame has already been split
-      off the buffer, yet every loop treats the error as "wait for more bytes" -/
+  /-- `Err(InsufficientBytes(n))` coming out of a *body reader* of an unsealed copy: the frame has
+      already been split off the buffer, yet every loop treats the error as "wait for more bytes" -/
   | swallowed (n : Nat) (rest : ByteList)
 deriving Repr, DecidableEq
 
@@ -154,22 +175,28 @@ variable {Pkt ε : Type}
 def Honest (body : FixedHeader → ByteList → Except (BodyErr ε) Pkt) : Prop :=
   ∀ fh fr n, body fh fr ≠ .error (.insufficient n)
 
-/-- what becomes of a body reader's result (`?` propagates its error unchanged) -/
-def fromBody (r : Except (BodyErr ε) Pkt) (rest : ByteList) : Step Pkt :=
+/-- a body reader's `InsufficientBytes` cannot reach the framing loops: the copy seals it (c5, b5)
+    or the reader never produces it (what the v4 copies rely on) -/
+def Guarded (c : Copy) (body : FixedHeader → ByteList → Except (BodyErr ε) Pkt) : Prop :=
+  sealed c = true ∨ Honest body
+
+/-- what becomes of a body reader's result: unsealed copies propagate its error unchanged (`?`),
+    sealed ones map `InsufficientBytes` to `MalformedPacket` -/
+def fromBody (isSealed : Bool) (r : Except (BodyErr ε) Pkt) (rest : ByteList) : Step Pkt :=
   match r with
   | .ok p => .packet p rest
   | .error (.malformed _) => .malformed rest
-  | .error (.insufficient n) => .swallowed n rest
+  | .error (.insufficient n) => if isSealed then .malformed rest else .swallowed n rest
 
 /-- the part of `read`/`read_mut` after `stream.split_to(frame_length)`: `frame` is the split-off
     frame, `rest` what stays in the buffer -/
 def deliver (c : Copy) (body : FixedHeader → ByteList → Except (BodyErr ε) Pkt) (fh : FixedHeader)
     (frame rest : ByteList) : Step Pkt :=
-  match dispatch c fh.typeNibble fh.remainingLen with
+  match dispatch c fh.typeNibble fh.flags fh.remainingLen with
   | .reject => .malformed rest
   | .unreachable => .panic rest
-  | .accept => fromBody (body fh frame) rest
-  | .read => fromBody (body fh frame) rest
+  | .accept => fromBody (sealed c) (body fh frame) rest
+  | .read => fromBody (sealed c) (body fh frame) rest
 
 /-- `Packet::read(stream, max)` / `Protocol::read_mut(stream, max)`. -/
 def decode1 (c : Copy) (body : FixedHeader → ByteList → Except (BodyErr ε) Pkt) (max : Limit)
